@@ -442,6 +442,24 @@ func (e *Engine) recordWriteE(lhs ast.Expr, ms *modset, define bool, elem bool) 
 func (e *Engine) loopMods(c *FuncCtx, n ast.Node) ([]*types.Var, *modset) {
 	ms := newModset()
 	e.scanMods(n, ms)
+	// ghost counters ticked at call sites inside this loop
+	if c != nil && c.contract != nil {
+		ast.Inspect(n, func(nd ast.Node) bool {
+			if x, ok := nd.(*ast.CallExpr); ok {
+				if ord, ok := c.callOrd[x]; ok {
+					key := e.calleeKeyOf(x)
+					for _, cl := range c.contract.Clauses {
+						if cl.Kind == "at" && cl.Name == key && cl.Loop == ord {
+							for _, t := range tickNames(cl.Text) {
+								ms.traces["tick$"+t] = true
+							}
+						}
+					}
+				}
+			}
+			return true
+		})
+	}
 	for _, site := range ms.sites {
 		con := e.spec.Contracts[site.key]
 		callee := e.modsetOf(site.key)
@@ -588,4 +606,25 @@ func (m *modset) cellTypes(k string, t types.Type) {
 		m.ctypes = map[string]types.Type{}
 	}
 	m.ctypes[k] = t
+}
+
+// tickNames lists the ghost counters incremented by an "at call" clause text.
+func tickNames(text string) []string {
+	var out []string
+	for i := 0; ; {
+		j := strings.Index(text[i:], "tick(")
+		if j < 0 {
+			break
+		}
+		at := i + j
+		i = at + 5
+		if at > 0 && (text[at-1] == '_' || text[at-1] >= 'a' && text[at-1] <= 'z' || text[at-1] >= 'A' && text[at-1] <= 'Z') {
+			continue
+		}
+		k := strings.IndexByte(text[i:], ')')
+		if k > 0 {
+			out = append(out, strings.TrimSpace(text[i:i+k]))
+		}
+	}
+	return out
 }
